@@ -165,8 +165,11 @@ Msg(p, m) ==
             \* Clear(!canFast): queued requests are dropped, sent ones too unless the
             \* peer has the fast extension (it will reject them explicitly)
             /\ unch' = [unch EXCEPT ![p] = FALSE]
-            /\ LET keep == IF canFast[p] THEN r[p] ELSE {}
-                   gone == IF canFast[p] THEN <<>> ELSE SeqOf({x.c : x \in r[p]})
+            \* Dev "choke_forgets_fast": a peer that has the fast extension but has allowed nothing fast is treated like one
+            \* without it - the sent requests are forgotten (and released), although the remote still holds them
+            /\ LET keeps == canFast[p] /\ ~("choke_forgets_fast" \in Dev /\ fast[p] = {})
+                   keep == IF keeps THEN r[p] ELSE {}
+                   gone == IF keeps THEN <<>> ELSE SeqOf({x.c : x \in r[p]})
                IN /\ r' = [r EXCEPT ![p] = keep] /\ q' = [q EXCEPT ![p] = <<>>]
                   /\ ToTor(p, Drops(gone \o q[p]))
             /\ UNCHANGED <<pb, pbnil, fast, store>>
@@ -230,7 +233,10 @@ Msg(p, m) ==
                            /\ ToTor(p, <<[k |-> "data", c |-> m.c, n |-> 0, short |-> FALSE, complete |-> FALSE]>>)
                            /\ UNCHANGED store
                       [] OTHER ->     \* short, empty, misaligned, for a complete piece, spilling over the piece end
-                           /\ ToTor(p, Drops(<<m.c>>)) /\ UNCHANGED store
+                           \* Dev "late_dup_silent": a good block for a piece that is complete by now is released by nobody
+                           IF "late_dup_silent" \in Dev /\ m.pl = "exact" /\ ~fits
+                             THEN UNCHANGED <<store, torQ>>
+                             ELSE ToTor(p, Drops(<<m.c>>)) /\ UNCHANGED store
             /\ UNCHANGED <<pb, pbnil, unch, fast>>
 
 \* expireRequests after more than 30 s: sent requests are cancelled (Cancel on the
